@@ -1,6 +1,9 @@
 ----------------------------- MODULE ScopesTrace -----------------------------
 (* Trace specification for C09.  One observation per checked function body:                         *)
 (*   {tid, prog, uses: [[useid, [def ids reported by the real checker, 0 = (possibly) undefined]], ...]} *)
+(*    unused: [ids of the bindings reported as unused_variable / unused_assignment]                   *)
+(*    marks: [[useid, 1 iff usage_to_definition_nodes has no entry for the use or holds the          *)
+(*            _UNINITIALIZED marker]] -- only for observations read from the function scope           *)
 (* TLC computes the strict / liberal reaching definitions of the recorded program (CFG.tla) and      *)
 (* judges the real report; the model of the scope machinery (Scopes.tla) is compared for drift.      *)
 EXTENDS ScopeGen, Json, IOUtils
@@ -13,8 +16,23 @@ Chk(cond, tid, v) == IF cond THEN TRUE ELSE Say(tid, v)
 Judge(o) ==
     LET rs == Reaching(o.prog, "strict")
         rl == Reaching(o.prog, "liberal")
-        us == ImplUsage(o.prog)
-    IN \A i \in 1..Len(o.uses) :
+        F == ImplFinal(o.prog)
+        us == F.usage
+        unused == ToSet(o.unused)
+    IN /\ \A dv \in NameDefs(o.prog) :
+        LET rep == dv[1] \in unused
+            model == ImplReportedUnused(o.prog, F, dv[1], dv[2])
+            w0 == DefVerdict2(o.prog, rs, rl, dv[1], rep)
+            \* as below: a known deviation excuses a false "unused" only when the model reproduces it
+            w == IF w0 \notin {"ok", "viol", "info"} /\ rep # model THEN "viol" ELSE w0
+        IN /\ Chk(w = "ok", o.tid, IF w = "viol" THEN "viol:UsedAssignmentReportedUnused"
+                                   ELSE IF w = "info" THEN "info:UnusedAssignmentNotReported" ELSE w)
+           /\ Chk(rep = model, o.tid, "drift:unused")
+       \* the unbound marker in the scope state and the (possibly) undefined-name diagnostic must go together
+       /\ \A i \in 1..Len(o.marks) :
+            Chk(\A j \in 1..Len(o.uses) : o.uses[j][1] = o.marks[i][1] => ((0 \in ToSet(o.uses[j][2])) <=> (o.marks[i][2] = 1)),
+                o.tid, "drift:uninit-marker-vs-diagnostic")
+       /\ \A i \in 1..Len(o.uses) :
         LET u == o.uses[i][1]
             reported == ToSet(o.uses[i][2])
             v0 == UseVerdict2(o.prog, rs, rl, u, reported)
